@@ -5,6 +5,7 @@ mod proj;
 mod c06;
 mod c08;
 mod tok;
+mod c11;
 mod c13;
 mod c14;
 mod c17;
@@ -155,6 +156,7 @@ fn main() {
     let rep = match prop.as_str() {
         "C06" => c06::run(&ctx),
         "C08" => c08::run(&ctx),
+        "C11" => c11::run(&ctx),
         "C13" => c13::run(&ctx),
         "C14" => c14::run(&ctx),
         "C17" => c17::run(&ctx),
